@@ -859,7 +859,7 @@ Section LB.
       let line_start := match rfind_char LF l with Some k => k + 1 | None => 0 end in
       let offset := if Nat.eqb line_start 0 then prompt_col else 0 in
       do cur <- lift (slice (buf b) line_start (pos b));
-      let column := width cur + offset in
+      let column := Nat.min (width cur + offset) (N.to_nat 65535%N) in        (* u16, saturating_add (repair of F23) *)
       let ds0 := pos b + off + 1 in
       do r2 <- lift (slice_from (buf b) ds0);
       let de0 := match find_char LF r2 with Some v => ds0 + v | None => lb_len b end in
